@@ -76,6 +76,7 @@ class Grammar:
         self.starting_symbol = starting_symbol
         self.distanceToTerminal = {int: 0, str: 0, float: 0, bool: 0}
         self.all_nodes = set()
+        self.ordered_nodes: list[type] = []  # all_nodes in registration order (deterministic across processes)
         self.recursive_prods = set()
         self.terminals = set()
         self.non_terminals = set()
@@ -134,6 +135,7 @@ class Grammar:
                 self.register_type(p)
             return
         self.all_nodes.add(ty)
+        self.ordered_nodes.append(ty)
 
         parent = ty.mro()[1]
         if parent not in [object, ABC, Generic, int, bool, float, str]:
@@ -219,6 +221,16 @@ class Grammar:
 
     def get_all_mentioned_symbols(self) -> set[type]:
         return {x for t in self.get_all_symbols()[2] for x in self.collect_types(t)}
+
+    def get_all_mentioned_symbols_in_order(self) -> list[type]:
+        """The symbols of get_all_mentioned_symbols, in registration order.
+
+        Unlike the set, the order does not depend on memory addresses, so
+        random choices over it are reproducible across processes.
+        """
+        symbols = list(self.alternatives.keys()) + [v for vv in self.alternatives.values() for v in vv]
+        symbols += self.ordered_nodes
+        return list(dict.fromkeys(x for t in symbols for x in self.collect_types(t)))
 
     def get_distance_to_terminal(self, ty: type) -> int:
         """Returns the current distance to terminal of a given type."""
